@@ -26,7 +26,7 @@ SPEC = dict(
           "segments or duplicate separators; an evaluation is non-trivial when it contains such a name (label 'non-trivial "
           "name' counts them individually; 'static|template|external: ...' labels count every lookup). swap: plan = "
           "configuration x request spelling x victim (leaf, leaf.gz, both) x secret kind x threads x swaps x spin delays; "
-          "non-trivial when the lookups observed both Found and refused while the swapper ran. fuzz: name bytes against a fixed "
+          "non-trivial when the lookups observed both Found and refused while the swapper ran. mutate_tree: one Assets instance, one thread, a history of up to 90 operations over a mutable area m/ (docs/, docs/sub/, file.txt, .gz siblings, inside links lnk->docs and flink->docs/readme.txt, an inside twin alt/ and an OUTSIDE twin outside/docs/ with the same relative names): lookups of 21 fixed spellings or grammar names, quiescent mutations by the harness (directory := real | link->outside twin (abs/rel) | link->inside twin | absent; file := new version | link->secret (abs/rel/sibling-prefix) | link->inside file | absent), reload(), re-lookup of every name seen so far; every lookup judged against the tree at that moment (caching paths - statics in cached mode, templates always - may serve a stale copy of an inside file the name resolved to since the last reload); non-trivial when at least one lookup follows at least one mutation; distinct by hash of the history. fuzz: name bytes against a fixed "
           "tree, 4 lookup modes; non-trivial as for lookup; distinct by hash of the name."),
     assumptions=["the harness's path walker implements POSIX path resolution (cross-checked against realpath(3) on every name; "
                  "disagreements are counted as inconclusive and were never observed)",
@@ -37,6 +37,7 @@ SPEC = dict(
         pbt("c20_assets", "harness/c20_assets.cpp", dict(
             lookup=P(250, 4000, 8, 16, q_secs=30, t_secs=300),
             swap=P(40, 400, 6, 16, q_secs=30, t_secs=240, extra=["--shrink-seconds", "15"]),
+            mutate_tree=P(300, 3000, 4, 16, q_secs=30, t_secs=240, extra=["--shrink-seconds", "20"]),
         )),
         fuzz("fuzz_assets", "harness/fuzz_assets.cpp", dict(runs=120000, procs=2, max_len=200, max_seconds=25),
              dict(runs=3000000, procs=8, max_len=512, max_seconds=240), corpus="corpus/C20", dict="corpus/C20/assets.dict"),
